@@ -81,11 +81,16 @@ def parse_meta_line(text, meta):
                 meta[k] = v
 
 
+def is_harness_crate(crate):
+    d = os.path.join(HARNESS_DIR, crate)
+    return os.path.isfile(os.path.join(d, "Cargo.toml")) and os.path.isdir(os.path.join(d, "src"))
+
+
 def scan_harnesses():
     out = []
     for crate in sorted(os.listdir(HARNESS_DIR)):
         src = os.path.join(HARNESS_DIR, crate, "src")
-        if not os.path.isdir(src):
+        if not is_harness_crate(crate):
             continue
         for root, _, files in os.walk(src):
             for f in sorted(files):
@@ -139,7 +144,9 @@ def build_crate(crate, logdir):
     """Compile the harness crate (and the /repo path deps) with kani-compiler once."""
     sync_lock(crate)
     os.makedirs(logdir, exist_ok=True)
-    cmd = ["cargo", "kani", "--target-dir", os.path.join(TARGET, crate), "--only-codegen"]
+    # -Z stubbing: some harnesses carry #[kani::stub]; the attribute is rejected at compile time
+    # unless the unstable feature is on, also for --only-codegen.
+    cmd = ["cargo", "kani", "--target-dir", os.path.join(TARGET, crate), "--only-codegen"] + BASE_FLAGS
     t0 = time.time()
     p = subprocess.run(cmd, cwd=os.path.join(HARNESS_DIR, crate), env=kani_env(),
                        stdout=subprocess.PIPE, stderr=subprocess.STDOUT, text=True)
@@ -155,6 +162,21 @@ def _limit(mem_gb):
     return f
 
 
+# Passed to every cargo-kani invocation (build and runs alike, so artefacts are reused):
+# stubbing for #[kani::stub], unstable-options for --cbmc-args.
+BASE_FLAGS = ["-Z", "stubbing", "-Z", "unstable-options"]
+
+
+def harness_args(h):
+    """Per-harness extra arguments; `-Z stubbing` is always passed by the driver (the same flag set
+    for the build step and every run keeps the kani-compiler artefacts reusable)."""
+    a = list(h.args)
+    while "-Z" in a and a.index("-Z") + 1 < len(a) and a[a.index("-Z") + 1] == "stubbing":
+        i = a.index("-Z")
+        del a[i:i + 2]
+    return a
+
+
 SUMMARY_RE = re.compile(r"\*\* (\d+) of (\d+) failed(?: \((.*?)\))?")
 COVER_RE = re.compile(r"\*\* (\d+) of (\d+) cover properties satisfied(?: \((.*?)\))?")
 
@@ -163,7 +185,7 @@ def run_harness(h, tier, logdir, extra=None, timeout=None, mem_gb=None):
     timeout = timeout or h.timeout or TIER_TIMEOUT[tier]
     mem_gb = mem_gb or h.mem or TIER_MEM_GB[tier]
     cmd = ["cargo", "kani", "--target-dir", os.path.join(TARGET, h.crate),
-           "--harness", h.fq, "--exact", "--output-format", "terse"] + h.args + (extra or [])
+           "--harness", h.fq, "--exact", "--output-format", "terse"] + BASE_FLAGS + harness_args(h) + (extra or [])
     logf = os.path.join(logdir, f"{h.name}.log")
     t0 = time.time()
     with open(logf, "w") as lf:
@@ -242,7 +264,8 @@ def make_replay(h, prop, tier, logdir):
                     ignore=shutil.ignore_patterns("target", ".target"))
     tdir = os.path.join(TARGET, "replay-" + h.crate)
     cmd = ["cargo", "kani", "--target-dir", tdir, "--harness", h.fq, "--exact",
-           "--output-format", "terse", "-Z", "concrete-playback", "--concrete-playback=inplace"] + h.args
+           "--output-format", "terse"] + BASE_FLAGS + ["-Z", "concrete-playback",
+           "--concrete-playback=inplace"] + harness_args(h)
     t = h.timeout or TIER_TIMEOUT[tier]
     try:
         p = subprocess.run(cmd, cwd=rdir, env=kani_env(), stdout=subprocess.PIPE,
@@ -288,17 +311,29 @@ def run_replay(rdir, logdir=None):
     info = json.load(open(os.path.join(rdir, "replay.json")))
     tdir = os.path.join(TARGET, "replay-" + info["crate"])
     reproduced = False
-    for t in [x["test"] for x in info["tests"]]:
+    for ent in info["tests"]:
+        t = ent["test"]
         # `cargo kani playback` rejects --target-dir; CARGO_TARGET_DIR is honoured.
         env = kani_env()
         env["CARGO_TARGET_DIR"] = tdir + "-native"
+        # Kani stubs are not applied in playback: the harness crates serve the same environment
+        # values through Solana's native SyscallStubs hook under this cfg (see harness/*/src/stubs.rs).
+        env["RUSTFLAGS"] = env["RUSTFLAGS"] + " --cfg vh_native"
         cmd = ["cargo", "kani", "playback", "-Z", "concrete-playback", "--", t]
         p = subprocess.run(cmd, cwd=rdir, env=env, stdout=subprocess.PIPE,
                            stderr=subprocess.STDOUT, text=True)
         if logdir:
             open(os.path.join(logdir, f"{info['harness']}.playback-run.log"), "a").write(p.stdout)
-        if re.search(r"test result: FAILED|panicked at", p.stdout):
-            reproduced = True
+        if re.search(r"test result: FAILED", p.stdout):
+            # the native failure must be the one the solver reported, not some other panic
+            want = ent["check"].split("\n")[0].strip().strip('"')
+            want = re.sub(r"^assertion failed: ", "", want)
+            panics = re.findall(r"panicked at [^\n]*\n([^\n]*)", p.stdout)
+            if any(want and want in m for m in panics) or (want and want in p.stdout):
+                reproduced = True
+            else:
+                log(f"  replay of {t}: native run failed differently ({panics[:2]}) than the solver's check ({want!r})")
+                return None
         elif "test result: ok" in p.stdout:
             pass
         else:
@@ -321,7 +356,9 @@ def load_known():
 # main per-property flow
 # --------------------------------------------------------------------------------------
 def select(harnesses, prop, tier, only=None):
-    sel = [h for h in harnesses if h.prop == prop and (tier == "thorough" or h.tier == "quick")]
+    # tier=experimental harnesses are kept in the tree for the next round but never selected
+    tiers = ("quick", "thorough") if tier == "thorough" else ("quick",)
+    sel = [h for h in harnesses if h.prop == prop and h.tier in tiers]
     if only:
         sel = [h for h in sel if only in h.name]
     return sel
@@ -487,7 +524,7 @@ def write_evidence(prop, tier, seed, results, smt, wall, violations, notes, buil
 def setup():
     """Pre-build every harness crate (kani-compiler) and the MIR dump, offline."""
     rc_all = 0
-    crates = [c for c in sorted(os.listdir(HARNESS_DIR)) if os.path.isdir(os.path.join(HARNESS_DIR, c, "src"))]
+    crates = [c for c in sorted(os.listdir(HARNESS_DIR)) if is_harness_crate(c)]
     logdir = os.path.join(TARGET, "logs", "setup")
     os.makedirs(logdir, exist_ok=True)
     with cf.ThreadPoolExecutor(max_workers=4) as ex:
